@@ -18,7 +18,7 @@ abbrev Rec := UInt8 × Bytes
 
 inductive FS where
   | hdr (h : Bytes)                                -- fewer than 3 header bytes so far
-  | pay (ty : UInt8) (need : Nat) (p : Bytes)      -- header complete, `p.length < need`
+  | pay (ty : UInt8) (need : Nat) (p : Bytes)      -- header complete; `need` ≥ 1 payload bytes still missing; `p` = the payload so far, REVERSED (O(1) per byte)
   deriving DecidableEq, Repr
 
 def FS.init : FS := .hdr []
@@ -29,7 +29,7 @@ def frameByte : FS → UInt8 → FS × List Rec
     if n = 0 then (.hdr [], [(ty, [])]) else (.pay ty n [], [])
   | .hdr h, b => (.hdr (h ++ [b]), [])
   | .pay ty need p, b =>
-    if p.length + 1 = need then (.hdr [], [(ty, p ++ [b])]) else (.pay ty need (p ++ [b]), [])
+    if need ≤ 1 then (.hdr [], [(ty, (b :: p).reverse)]) else (.pay ty (need - 1) (b :: p), [])
 
 def frameAll : FS → Bytes → FS × List Rec
   | fs, [] => (fs, [])
